@@ -94,4 +94,12 @@ def pathEdges : List Cell → List Edge
   | [_] => []
   | a :: b :: rest => edgeOf a b :: pathEdges (b :: rest)
 
+/-- well-formed connection structure for a `rows × cols` grid: every stored edge has a legal dimension and joins two
+    cells of the grid (equivalently: the last row of dim 0 and the last column of dim 1 are clear and nothing lies
+    outside the array) — "no connection leaves the grid" -/
+def WF (rows cols : Nat) (E : List Edge) : Prop :=
+  ∀ e ∈ E, (e.1 = 0 ∨ e.1 = 1) ∧ inGrid rows cols (ends e).1 ∧ inGrid rows cols (ends e).2
+
+instance {rows cols : Nat} {E : List Edge} : Decidable (WF rows cols E) := by unfold WF; exact inferInstance
+
 end MZ
